@@ -106,6 +106,10 @@ pub trait Prop: Sync {
     fn nondeterminism_is_violation(&self) -> bool {
         false
     }
+    /// narrow a failing case using what the violation says (before minimisation)
+    fn refine_case(&self, case: &Value, _v: &Violation) -> Value {
+        case.clone()
+    }
     /// checks that run once per batch in the orchestrating process (e.g. pinned golden digests);
     /// returns (replayable case, violation)
     fn batch_prelude(&self) -> Option<(Value, Violation)> {
@@ -440,6 +444,7 @@ pub fn check_main(p: &dyn Prop, tier: Tier) -> i32 {
         let viol = Violation::from_value(&first["violation"]).unwrap();
         let seed = first["seed"].as_u64().unwrap_or(0);
         let case = if first["case"].is_null() { p.generate(seed, tier) } else { first["case"].clone() };
+        let case = p.refine_case(&case, &viol);
         let budget = Duration::from_secs(if tier == Tier::Quick { 60 } else { 600 });
         let (min_case, tries) = minimise(p, &case, &viol.class, budget);
         let out = p.execute(&min_case);
